@@ -254,6 +254,25 @@ theorem C15_generated_no_half_written (ext : Go.Ext) (hio : GenOutfile.NoIOErr e
   simp only [he, List.nil_append, hk]
   exact C15_noappend fs (GenOutfile.reqOf ext query o final) k happ
 
+/-- **Whatever file operation fails, the translated `WriteResult` returns.**  For every behaviour of the file system
+    (`ext.ioErr` decides for each operation, given the history, whether it fails), of `os.Stat` and for every result: with
+    an outfile in the query the function ends in a normal return — with the error of the failing operation, after removing
+    the temporary file when the final rename failed — and never in a nil dereference or any other panic. -/
+theorem C15_generated_writeresult_never_panics (ext : Go.Ext) (g : Gen.Outfile.GroupSet) (query : Gen.Outfile.Query)
+    (o : Gen.Outfile.Outfile) (ho : query.Outfile = some o) (final : Bool) :
+    ∃ r, Gen.Outfile.GroupSet.WriteResult ext g query final = Outcome.ok r :=
+  GenOutfile.WriteResult_returns ext g query o ho final
+
+/-- non-vacuity: the fourth operation (opening the temporary outfile) fails: the query file is complete, nothing else was
+    touched, the error comes back -/
+example :
+    let failFourth : List Go.GoFOp → Go.GoFOp → Go.GoErr := fun h _ => if h.length = 3 then some (b!"disk full") else none
+    let ext : Go.Ext := { parseFloat := fun _ => (0, none), rowValues := [[b!"1"]], ioErr := failFourth }
+    let q : Gen.Outfile.Query := { Select := [⟨b!"a"⟩], Limit := -1, Outfile := some ⟨b!"/d/o", false⟩, RawQuery := b!"q" }
+    (match Gen.Outfile.GroupSet.WriteResult ext {} q true with
+      | .ok (g, some _) => g.ops.length
+      | _ => 0) = 3 := by decide
+
 /-- non-vacuity: a replace-mode request, two columns, one row: the translated function records the eight writes between
     the two renames -/
 example :
